@@ -27,7 +27,8 @@ comment filtering and delimiter handling are the same for handle and path
 inputs (sibling comparison); exactly 3 bytes are skipped iff the file starts
 with EF BB BF. C07.5 rejection discipline: a guard comparing the first row's
 length with the oracle's column count, and emptiness, raises
-FileInterfaceException before the conversion; array construction *of the
+FileInterfaceException before the conversion (evaluated for files of several
+rows and of a single row); array construction *of the
 whole raw matrix* and the float conversion sit in a try whose ValueError
 handler raises FileInterfaceException (ragged rows, blanks, trailing
 delimiters and non-numeric fields surface there); no handler swallows the
@@ -1312,6 +1313,16 @@ VARIANTS = [
          find="    if not raw_mat or (len(raw_mat) > 0 and len(raw_mat[0]) != 8):",
          replace="    if not raw_mat or (len(raw_mat) > 0 and len(raw_mat[0]) < 8):",
          expect="fire", rule="C07.5"),
+    dict(name="kitti-guard-more-than-one-row",
+         file="evo/tools/file_interface.py",
+         find="    if not raw_mat or (len(raw_mat) > 0 and len(raw_mat[0]) != 12):",
+         replace="    if not raw_mat or (len(raw_mat) > 1 and len(raw_mat[0]) != 12):",
+         expect="fire", rule="C07.5"),
+    dict(name="tum-guard-without-length-test",
+         file="evo/tools/file_interface.py",
+         find="    if not raw_mat or (len(raw_mat) > 0 and len(raw_mat[0]) != 8):",
+         replace="    if not raw_mat or len(raw_mat[0]) != 8:",
+         expect="silent"),
     dict(name="conversion-outside-try", file="evo/tools/file_interface.py",
          find="    try:\n        mat = np.array(raw_mat).astype(float)\n    except ValueError:\n"
               "        raise FileInterfaceException(error_msg)\n    stamps = mat[:, 0]  # n x 1\n    xyz = mat[:, 1:4]  # n x 3\n    quat = mat[:, 4:]  # n x 4",
